@@ -550,6 +550,21 @@ def is_probe(fail):
 _FOLD_SPECIAL = {0xDF, 0x17F, 0x212A, 0x1E9E} | set(range(0xFB00, 0xFB07))
 
 
+def m_regex_engine_gives_up(fail):
+    """C17: the regex engine stopped a match (its limit on backtracking retries) and find said so: a diagnostic naming
+    the engine's limit, exit status 1, and nothing selected that is not in the language."""
+    o = fail["obs"]
+    if o.get("panic") or not o.get("exit"):
+        return False
+    if "retry-limit-in-match" not in o.get("stderr", "") and "match-stack-limit" not in o.get("stderr", ""):
+        return False
+    pairs = [("m", "m"), ("m1", "m1"), ("m2", "m2")]
+    for a, b in pairs:
+        if a in o and b in fail["exp"] and not (set(o[a]) <= set(fail["exp"][b])):
+            return False
+    return True
+
+
 def m_multichar_fold(fail):
     """C12: an -i form, nothing missing, and every subject selected in excess contains a character whose Unicode case
     folding is not a single character of the same script (sharp s ~ ss, long s ~ s, Kelvin sign ~ k, the fi.. ligatures)."""
